@@ -49,7 +49,7 @@ Proof. exact law_class_alt. Qed.
    verdict on every input *)
 Theorem C20_plus_law_end_to_end_partial :
   forall fl a input,
-    ok_a (f_xpath fl) a = true -> f_literal fl = false -> f_ws fl = false -> (N.of_nat (length input) < umax)%N ->
+    ok_a (f_xpath fl) a = true -> f_literal fl = false -> f_ws fl = false -> (N.of_nat (length input) < umax)%N -> valid_in input ->
     exists prog prog', compile true fl (show_a a) = Ok prog /\ compile true fl (show_a (plus_a a)) = Ok prog'
       /\ match matches prog input 0 st0, matches prog' input 0 st0 with
          | MTrue _, MTrue _ | MFalse _, MFalse _ => True
@@ -59,7 +59,7 @@ Proof. exact plus_law_end_to_end. Qed.
 
 Theorem C20_optional_law_end_to_end_partial :
   forall fl a input,
-    ok_a (f_xpath fl) a = true -> f_literal fl = false -> f_ws fl = false -> (N.of_nat (length input) < umax)%N ->
+    ok_a (f_xpath fl) a = true -> f_literal fl = false -> f_ws fl = false -> (N.of_nat (length input) < umax)%N -> valid_in input ->
     exists prog prog', compile true fl (show_a a) = Ok prog /\ compile true fl (show_a (opt_a a)) = Ok prog'
       /\ match matches prog input 0 st0, matches prog' input 0 st0 with
          | MTrue _, MTrue _ | MFalse _, MFalse _ => True
@@ -71,7 +71,7 @@ Proof. exact opt_law_end_to_end. Qed.
    [dec ds]): every c{n,} (and c{n,}?) of a pattern of the grammar spelled as c...cc* (c...cc*?) *)
 Theorem C20_at_least_law_end_to_end_partial :
   forall fl a input,
-    ok_a (f_xpath fl) a = true -> f_literal fl = false -> f_ws fl = false -> (N.of_nat (length input) < umax)%N ->
+    ok_a (f_xpath fl) a = true -> f_literal fl = false -> f_ws fl = false -> (N.of_nat (length input) < umax)%N -> valid_in input ->
     exists prog prog', compile true fl (show_a a) = Ok prog /\ compile true fl (show_a (atl_a a)) = Ok prog'
       /\ match matches prog input 0 st0, matches prog' input 0 st0 with
          | MTrue _, MTrue _ | MFalse _, MFalse _ => True
@@ -83,7 +83,7 @@ Proof. exact at_least_law_end_to_end. Qed.
    every c{n,m} (c{n,m}?) spelled as c...cc?...c? (c...cc??...c??) *)
 Theorem C20_bounded_law_end_to_end_partial :
   forall fl a input,
-    ok_a (f_xpath fl) a = true -> f_literal fl = false -> f_ws fl = false -> (N.of_nat (length input) < umax)%N ->
+    ok_a (f_xpath fl) a = true -> f_literal fl = false -> f_ws fl = false -> (N.of_nat (length input) < umax)%N -> valid_in input ->
     exists prog prog', compile true fl (show_a a) = Ok prog /\ compile true fl (show_a (bnd_a a)) = Ok prog'
       /\ match matches prog input 0 st0, matches prog' input 0 st0 with
          | MTrue _, MTrue _ | MFalse _, MFalse _ => True
